@@ -319,6 +319,37 @@ def analyse(case):
             'cand': cand, 'subwords': subwords}
 
 
+def twin_base(case, cr):
+    """the creator `cr` is a second INSTANCE of the class of (wave 6): the creator it shares the decorated method
+    (and so the @create_after arguments and the source line) with, or None"""
+    t = cr.get('twin_of')
+    if not t:
+        return None
+    for a in case['creators']:
+        if a['fname'] == t and a is not cr and not a.get('creates') and not cr.get('creates') \
+                and not a.get('params') and not cr.get('params'):
+            return a
+    return None
+
+
+def eff_order(case):
+    """case['order'] as load_tasks sees it: creators are ordered by source line (stable), and the creator of a second
+    instance has the line of the shared method -- it comes right after the first instance"""
+    order = list(case['order'])
+    for cr in case['creators']:
+        a = twin_base(case, cr)
+        if a is not None and cr['fname'] in order and a['fname'] in order:
+            order.remove(cr['fname'])
+            order.insert(order.index(a['fname']) + 1, cr['fname'])
+    return order
+
+
+def twin_view(case, cr):
+    """the @create_after arguments in force for `cr`: those of the shared method for a second instance"""
+    a = twin_base(case, cr)
+    return cr if a is None else dict(cr, executed=a['executed'], regex=a['regex'])
+
+
 def load_order(case):
     """task table after load_tasks / TaskControl.__init__: (name, deps, loader index|None, targets)"""
     an_loaders = []
@@ -326,7 +357,7 @@ def load_order(case):
         for p in placeholders(cr):
             an_loaders.append((p, c))
     out = []
-    for item in case['order']:
+    for item in eff_order(case):
         if item in ('@static', '@late'):
             for t in case['static']:
                 if bool(t.get('late')) == (item == '@late'):
@@ -502,7 +533,7 @@ def build_namespace(case, rec):
 
     bodies = {}
     meta = {}
-    for item_ in case['order']:
+    for item_ in eff_order(case):
         if item_ == '@static':
             bodies['task_static0'] = (static_gen(False), None)
         elif item_ == '@late':
@@ -523,9 +554,12 @@ def build_namespace(case, rec):
         env['_body_%d' % i] = body
         if kw is None:
             src += 'def %s():\n    return _body_%d()\n\n' % (key, i)
-        elif meta[key].get('bound'):
+        elif twin_base(case, meta[key]) is not None:
+            pass    # a second instance of the class of its twin: no source of its own
+        elif meta[key].get('bound') or any(twin_base(case, o) is meta[key] for o in case['creators']):
             # the creator is a bound method of an object living in the namespace
-            src += 'class K_%s(object):\n    def %s(self, **kw):\n        return _body_%d(**kw)\n' % (key, key, i)
+            src += ('class K_%s(object):\n    def __init__(self, body):\n        self._body = body\n'
+                    '    def %s(self, **kw):\n        return self._body(**kw)\n' % (key, key))
         else:
             src += 'def %s(**kw):\n    return _body_%d(**kw)\n\n' % (key, i)
     linecache.cache[fname] = (len(src), None, src.splitlines(True), fname)
@@ -535,11 +569,17 @@ def build_namespace(case, rec):
             ns[key] = env[key]
             continue
         cr = meta[key]
-        f = env['K_' + key].__dict__[key] if cr.get('bound') else env[key]
+        tb = twin_base(case, cr)
+        if tb is not None:
+            # two instances of one class export the same @create_after method as task-creators
+            ns[key] = getattr(env['K_task_' + tb['fname']](body), 'task_' + tb['fname'])
+            continue
+        is_bound = cr.get('bound') or any(twin_base(case, o) is cr for o in case['creators'])
+        f = env['K_' + key].__dict__[key] if is_bound else env[key]
         if cr.get('params'):
             f = task_params([{'name': 'p', 'long': 'p', 'default': cr['params']['default']}])(f)
         f = create_after(**kw)(f)
-        ns[key] = getattr(env['K_' + key](), key) if cr.get('bound') else f
+        ns[key] = getattr(env['K_' + key](body), key) if is_bound else f
     ns['DOIT_CONFIG'] = {'dep_file': 'db.json', 'backend': 'json', 'verbosity': 0, 'reporter': runlib.RecReporter}
     if shared is not None:
         shared['ns'] = ns
@@ -869,6 +909,19 @@ def gen_case(rng, runner=None, knobs=None):
         rest = order[1:]
         rng.shuffle(rest)
         order = rest[:1] + head + rest[1:] if rng.random() < 0.5 else head + rest
+    twins = [i for i in range(1, len(creators)) if not creators[i]['creates'] and not creators[i - 1]['creates']]
+    if twins and rng.random() < k.get('p_twin', 0.2):
+        # two INSTANCES of one class export the same @create_after method (`task_x = K(..).make; task_y = K(..).make`):
+        # one decorated function, hence the same executed / target_regex; the bound methods are different creators
+        i = rng.choice(twins)
+        a, b = creators[i - 1], creators[i]
+        b['executed'], b['regex'] = a['executed'], a['regex']
+        for x in (a, b):
+            x['bound'] = True
+            x.pop('params', None)
+        b['twin_of'] = a['fname']
+        order.remove(b['fname'])
+        order.insert(order.index(a['fname']) + 1, b['fname'])
     sel, auto = gen_sel(rng, static, creators, k)
     runner = runner or rng.choice(['serial', 'serial', 'thread', 'thread', 'thread'])
     case = {'static': static, 'creators': creators, 'order': order, 'sel': sel, 'auto': auto,
@@ -919,7 +972,7 @@ def render(case):
             lines.append('@create_after(executed=%r, creates=%r, target_regex=%r)%s%s def task_%s: %s %s' % (
                 cr['executed'], cr['creates'], cr['regex'],
                 ' @task_params(p: default=%r, command line=%r)' % (cr['params']['default'], cr['params'].get('cmd'))
-                if cr.get('params') else '', ' bound-method' if cr.get('bound') else '', cr['fname'],
+                if cr.get('params') else '', (' bound-method' if cr.get('bound') else '') + (' SECOND-INSTANCE-of-the-class-of-task_%s' % cr['twin_of'] if cr.get('twin_of') else ''), cr['fname'],
                 {'gen': 'yields', 'dict': 'RETURNS the dict of its first item:', 'task': 'RETURNS a Task object of its first item:',
                  'none': 'RETURNS None; (would yield)', 'raises': 'RAISES; (would yield)'}[cr.get('ret', 'gen')],
                 ['%s%s deps=%s targets=%s%s%s%s' % (y.get('basename') or '', (':' + y['sub']) if y.get('sub') else '',
@@ -1045,6 +1098,9 @@ def run_case(case, j):
     r = runs_of(case)[j]
     c = dict(case, sel=r['sel'], auto=bool(r.get('auto')))
     c.pop('runs', None)
+    # a second instance of a class has the @create_after arguments of the shared method (also after shrinking)
+    c['creators'] = [twin_view(case, cr) for cr in case['creators']]
+    c['order'] = eff_order(case)
     return c
 
 
@@ -1322,6 +1378,8 @@ def count_case(st, case, obs, ans):
         st.count('creator-returns:%s' % cr.get('ret', 'gen'))
         if cr.get('bound'):
             st.count('creator:bound-method')
+        if twin_base(case, cr) is not None:
+            st.count('creator:second-instance-of-one-class(shared @create_after method)')
         if cr.get('params'):
             st.count('creator:task_params%s' % ('+command-line-value' if cr['params'].get('cmd') else ''))
         ex = cr['executed']
